@@ -1212,3 +1212,7 @@ class ConstraintChain:
     def to_string(self) -> str:
         """Return chain as string."""
         return "∧".join(c.to_string() for c in self.constraints)
+
+    def __repr__(self) -> str:
+        """Address-free repr: str() of a value holding a chain feeds the routing value_hash."""
+        return f"ConstraintChain({self.to_string()!r})"
